@@ -67,6 +67,18 @@ CHECKS = {
    text="property-based search over definitions whose texts carry HTML/roff/markdown injections; the three renderers must return; completeness against what the console help of every described level shows; HTML tag lexer (allowed tags, balance) and roff lexer (allowed requests and escapes) with a decode-and-find round trip for every injected text",
    note="no groff/mandoc/HTML parser available: lexers written from the formats the renderers emit are the trusted base",
    tech="property-based testing: validity lexers + round-trip (decode escapes, find the user's text) + completeness against --help"),
+ "C11": dict(
+   text="property-based differential between in-process run_inner and the real OptionParser::run() in a spawned process (12k spawns in quick): same text on the same stream, same exit status, body reached iff a value was produced, program name from argv[0] incl. non-UTF-8/empty/path forms",
+   note="trusted: the `subject` executable decodes the same choice bytes with the same generator; `--bpaf-complete-style-*`/unknown revisions and NUL bytes are excluded",
+   tech="property-based testing, differential (spawned process vs in-process prediction)"),
+ "C18": dict(
+   text="property-based search over env-backed items under every wrapper x lines x environment states (unset/empty/valid/invalid/non-UTF-8, undeclared variables) in single-threaded workers that own their environment; reference model with the env fallback rule, metamorphic (undeclared variables), help state text, ~3% cross-checked through a real child process with a real envp",
+   note="trusted: reference model + env rule; workers are separate single-threaded processes so set_var/remove_var cannot race",
+   tech="property-based testing against the reference grammar model extended with the documented env rule + metamorphic + child-process cross-check"),
+ "C20": dict(
+   text="differential over five builds of the same corpus runner (none / autocomplete / autocomplete+docgen+batteries+derive / dull-color / bright-color) on a proptest-generated corpus (40k cases quick); byte-identical dumps required; a difference is minimised across the two disagreeing builds",
+   note="trusted: the corpus decoder is feature independent (completers are simply not attached where the feature is absent); panic locations are not compared, messages are",
+   tech="property-based testing, differential between cargo feature builds of one generated corpus"),
 }
 
 PENDING_REASON = "check not built yet in this session (designed in DESIGN.md section 4; property-based testing applies to it)"
@@ -91,7 +103,7 @@ def main():
         })
     m = {
         "version": 1,
-        "setup_cmd": "cd /verif/harness && CARGO_NET_OFFLINE=true cargo build --release --offline",
+        "setup_cmd": "/verif/tools/setup.sh",
         "hooks": {
             "guard": "none (no source hooks: bpaf's public API is sufficient; the reserved cfg name bpaf_verif is unused)",
             "enable": "checks build /repo's working tree as a path dependency of /verif/harness (cargo build --release --offline); nothing to enable",
